@@ -40,11 +40,11 @@ Proof.
 Qed.
 
 (* options: canonical integer text is not affected by the text conversion *)
-Lemma option_canon strict p n : read_option strict p (TCanon n) = read_tok p (TCanon n).
-Proof. unfold read_option. destruct (read_tok p (TCanon n)); cbn; rewrite ?andb_false_r; reflexivity. Qed.
+Lemma option_canon strict e p n : read_option strict e p (TCanon n) = read_tok p (TCanon n).
+Proof. unfold read_option. cbn [is_canon]. destruct (read_tok p (TCanon n)); reflexivity. Qed.
 
-Lemma option_lenient strict p t : strict = false -> read_option strict p t = read_tok p t.
-Proof. intros ->. unfold read_option. destruct (read_tok p t); reflexivity. Qed.
+Lemma option_lenient p t : read_option false None p t = read_tok p t.
+Proof. unfold read_option. destruct (read_tok p t), (is_canon t); reflexivity. Qed.
 
 Lemma in_runs_members n rs : in_runs n rs = true <-> In n (runs_members rs).
 Proof.
@@ -63,25 +63,22 @@ Proof.
   - intros H. exists n. split; [exact H | apply Z.eqb_refl].
 Qed.
 
-(* whenever an option row passes option_ok: an integer is accepted exactly when it is a member of the enum, so the
-   conversion to the enum (from_input_string / from_int) is total on accepted values and every member is reachable *)
-Lemma option_conversion_total t i strict ms :
-  option_ok t (i, strict, ms) = true ->
+(* whenever an option row passes option_ok: every integer of the AllowableRange is a member of the enum, so the
+   conversion to the enum (from_input_string / from_int) is total on accepted values *)
+Lemma option_conversion_total t i strict e ms :
+  option_ok t (i, strict, e, ms) = true ->
   let p := nth i t dummy_param in
-  forall n, in_runs n (p_range p) = memZb n ms.
+  forall n, in_runs n (p_range p) = true -> memZb n ms = true.
 Proof.
-  cbn. intros H n. apply andb_true_iff in H. destruct H as [H B]. apply andb_true_iff in H. destruct H as [_ A].
-  rewrite forallb_forall in A, B.
-  destruct (in_runs n (p_range (nth i t dummy_param))) eqn:R.
-  - symmetry. apply B. apply in_runs_members. exact R.
-  - destruct (memZb n ms) eqn:M; [|reflexivity]. apply memZb_In in M. rewrite (A n M) in R. discriminate.
+  cbn. intros H n R. apply andb_true_iff in H. destruct H as [_ B]. rewrite forallb_forall in B.
+  apply B. apply in_runs_members. exact R.
 Qed.
 
-Lemma option_accept_is_member t i strict ms n w :
-  option_ok t (i, strict, ms) = true -> read_tok (nth i t dummy_param) (TCanon n) = TAccept w -> memZb n ms = true.
+Lemma option_accept_is_member t i strict e ms n w :
+  option_ok t (i, strict, e, ms) = true -> read_tok (nth i t dummy_param) (TCanon n) = TAccept w -> memZb n ms = true.
 Proof.
-  intros H Hr. pose proof (option_conversion_total t i strict ms H n) as E. cbn in E. rewrite <- E.
-  cbn in H. apply andb_true_iff in H. destruct H as [H _]. apply andb_true_iff in H. destruct H as [Hk _].
+  intros H Hr. apply (option_conversion_total t i strict e ms H n).
+  cbn in H. apply andb_true_iff in H. destruct H as [Hk _].
   assert (K : p_kind (nth i t dummy_param) = KInt) by (destruct (p_kind (nth i t dummy_param)); try discriminate; reflexivity).
   unfold read_tok in Hr. cbn in Hr. destruct (read_param (nth i t dummy_param) (inject_Z n)) eqn:Rp; try discriminate.
   destruct (accept_int_is_trunc _ _ _ K Rp) as [_ Hin]. rewrite trunc_inject in Hin. exact Hin.
@@ -93,9 +90,21 @@ Definition w_econ_model : param :=
   mkParam "Economics" "Economic Model" KInt (Some (2#1)) (Some (2#1)) 0 0 [(1, 4)%Z] "" "" "NONE" true "integer" "2/1".
 
 Lemma option_float_form_refuted :
-  exists p v, in_domain p v = true /\ read_tok p (TNum v) = TAccept v /\ read_option true p (TNum v) = TErrAnon /\
-              tspec_option_ok p (TNum v) (read_option true p (TNum v)) = false.
+  exists p v, in_domain p v = true /\ read_tok p (TNum v) = TAccept v /\ read_option true None p (TNum v) = TErrAnon /\
+              tspec_option_ok p (TNum v) (read_option true None p (TNum v)) = false.
 Proof. exists w_econ_model, (4#1). repeat split; vm_compute; reflexivity. Qed.
+
+(* refuted: Fracture Shape written "2.0": member 2 is accepted by ReadParameter and the else branch stores member 4 *)
+Definition w_fracture_shape : param :=
+  mkParam "Reservoir" "Fracture Shape" KInt (Some (1#1)) (Some (1#1)) 0 0 [(1, 4)%Z] "" "" "NONE" false "integer" "1/1".
+
+Lemma option_else_refuted :
+  exists p v m, in_domain p v = true /\ read_option false (Some m) p (TNum v) = TAccept (inject_Z m) /\ ~ inject_Z m == v /\
+                tspec_ok p (TNum v) (read_option false (Some m) p (TNum v)) = false.
+Proof.
+  exists w_fracture_shape, (2#1), 4%Z. repeat split; try (vm_compute; reflexivity).
+  intros H. vm_compute in H. discriminate.
+Qed.
 
 (* booleans *)
 Lemma bool_words s :
